@@ -8,6 +8,7 @@ import (
 	"iter"
 	"reflect"
 	"sort"
+	"sync"
 )
 
 // Map iteration order modes.
@@ -185,4 +186,31 @@ func sortKeys[K any](keys []K) bool {
 		copy(keys, out)
 	}
 	return true
+}
+
+// SyncMapRange replaces m.Range(f) on a sync.Map. The runtime walks a sync.Map in an order that depends on a hash
+// seed drawn per map instance; what f does (locks it takes, values it appends) would then differ from one execution of
+// a case to the next. The entries are collected first (Range promises no snapshot, so this is one of its legal
+// behaviours) and visited in the order of their keys' printed form - or, under a seeded order plan, in an order the
+// plan permutes like any other map loop.
+func SyncMapRange(m *sync.Map, f func(key, value any) bool, site string) {
+	type kv struct {
+		k, v any
+		s    string
+	}
+	var all []kv
+	m.Range(func(k, v any) bool {
+		all = append(all, kv{k, v, fmt.Sprint(k)})
+		return true
+	})
+	sort.SliceStable(all, func(i, j int) bool { return all[i].s < all[j].s })
+	idx := make(map[int]struct{}, len(all))
+	for i := range all {
+		idx[i] = struct{}{}
+	}
+	for i := range MapRange(idx, site) {
+		if !f(all[i].k, all[i].v) {
+			return
+		}
+	}
 }
